@@ -104,6 +104,102 @@ func nonZeroInt(p *int) *int {
  ('dupstringslice-aliases','pkg/api/helpers.go','''	out := make([]string, len(in))
 	copy(out, in)
 	return out''','''	return in[:len(in):len(in)]'''),
+ # ---- follow-up round (review findings F1, F2, nil flags)
+ ('copy-appends-nil-hugepage','pkg/api/resources.go',"""	if len(r.Unified) != 0 {
+		o.Unified = make(map[string]string)
+		for k, v := range r.Unified {
+			o.Unified[k] = v
+		}
+	}
+	if r.Pids != nil {
+		o.Pids = &LinuxPids{""","""	o.HugepageLimits = append(o.HugepageLimits, nil)
+	if len(r.Unified) != 0 {
+		o.Unified = make(map[string]string)
+		for k, v := range r.Unified {
+			o.Unified[k] = v
+		}
+	}
+	if r.Pids != nil {
+		o.Pids = &LinuxPids{"""),
+ ('copy-make-then-append-hugepages','pkg/api/resources.go',"""	for _, l := range r.HugepageLimits {
+		o.HugepageLimits = append(o.HugepageLimits, &HugepageLimit{
+			PageSize: l.PageSize,
+			Limit:    l.Limit,
+		})
+	}
+	if len(r.Unified) != 0 {
+		o.Unified = make(map[string]string)
+		for k, v := range r.Unified {
+			o.Unified[k] = v
+		}
+	}
+	if r.Pids != nil {
+		o.Pids = &LinuxPids{""","""	if n := len(r.HugepageLimits); n > 0 {
+		o.HugepageLimits = make([]*HugepageLimit, n)
+	}
+	for _, l := range r.HugepageLimits {
+		o.HugepageLimits = append(o.HugepageLimits, &HugepageLimit{
+			PageSize: l.PageSize,
+			Limit:    l.Limit,
+		})
+	}
+	if len(r.Unified) != 0 {
+		o.Unified = make(map[string]string)
+		for k, v := range r.Unified {
+			o.Unified[k] = v
+		}
+	}
+	if r.Pids != nil {
+		o.Pids = &LinuxPids{"""),
+ ('fromoci-devices-make-then-append','pkg/api/device.go',"""	var devices []*LinuxDevice
+	for _, d := range o {""","""	devices := make([]*LinuxDevice, len(o))
+	for _, d := range o {"""),
+ ('fromocihookslice-make-then-append','pkg/api/hooks.go',"""	var hooks []*Hook
+	for _, h := range o {""","""	hooks := make([]*Hook, len(o))
+	for _, h := range o {"""),
+ ('fromoci-resources-appends-nil-device','pkg/api/resources.go',"""	if p := o.Pids; p != nil {
+		l.Pids = &LinuxPids{""","""	if len(o.Devices) > 0 {
+		l.Devices = append(l.Devices, nil)
+	}
+	if p := o.Pids; p != nil {
+		l.Pids = &LinuxPids{"""),
+ ('int64-ctor-nil-is-zero','pkg/api/optional.go',"""	switch o := v.(type) {
+	case int:
+		value = int64(o)
+	case uint:
+		value = int64(o)
+	case uint64:
+		value = int64(o)
+	case int64:
+		value = o""","""	switch o := v.(type) {
+	case nil:
+		value = 0
+	case int:
+		value = int64(o)
+	case uint:
+		value = int64(o)
+	case uint64:
+		value = int64(o)
+	case int64:
+		value = o"""),
+ ('bool-ctor-nil-is-false','pkg/api/optional.go',"""	switch o := v.(type) {
+	case bool:
+		value = o""","""	switch o := v.(type) {
+	case nil:
+		value = false
+	case bool:
+		value = o"""),
+ ('filemode-ctor-nil-is-zero','pkg/api/optional.go',"""	switch o := v.(type) {
+	case *os.FileMode:""","""	switch o := v.(type) {
+	case nil:
+		value = 0
+	case *os.FileMode:"""),
+ ('fromocimounts-options-never-nil','pkg/api/mount.go',"""			Options:     DupStringSlice(m.Options),""","""			Options:     append([]string{}, m.Options...),"""),
+ ('hook-tooci-args-never-nil','pkg/api/hooks.go',"""	return rspec.Hook{
+		Path:    h.Path,
+		Args:    DupStringSlice(h.Args),""","""	return rspec.Hook{
+		Path:    h.Path,
+		Args:    append([]string{}, h.Args...),"""),
 ]
 only=sys.argv[1:] 
 res=[]
